@@ -4,7 +4,8 @@ LEAN_PROPS = "Tahoe.Props.C09"
 DRIVER = "C09"
 GENERATED = ["mutpublish"]
 SOURCES = ["src/allmydata/mutable/filenode.py", "src/allmydata/mutable/publish.py",
-           "src/allmydata/mutable/retrieve.py", "src/allmydata/mutable/layout.py"]
+           "src/allmydata/mutable/retrieve.py", "src/allmydata/mutable/layout.py",
+           "src/allmydata/mutable/servermap.py"]
 DESIGN_REF = "DESIGN.md §2 C09"
 TECHNIQUE = ("Lean 4 theorems over an executable model of the mutable-file content path (whole-file publish, "
              "modify, the MDMF in-place update with its start/end segment arithmetic and "
@@ -27,7 +28,8 @@ RULE = ("seeded histories create + ≤8 (thorough ≤40) operations (overwrite v
         "modifier kinds, update at offsets/lengths around segment boundaries, EOF and power-of-two segment counts, "
         "whole and range reads by download_best_version or MutableFileVersion.read or through a fresh node of a second "
         "client; a family of histories that reuse ONE MutableFileVersion object for several operations) on a real MutableFileNode, SDMF "
-        "and MDMF, k in 1..3, DEFAULT_MUTABLE_MAX_SEGMENT_SIZE lowered to 5..16 bytes; a case is one operation of a "
+        "and MDMF, k in 1..3, DEFAULT_MUTABLE_MAX_SEGMENT_SIZE lowered to 5..16 bytes (2..4 bytes for a family of "
+        "9..35-segment MDMF files whose updates are chosen by their (start_segment, end_segment) pair); a case is one operation of a "
         "history (or one crafted function-level input); distinct = distinct (format, k, segsize, size before, op) ; "
         "non-trivial = the file is non-empty before the operation (function level: the update touches old data)")
 TRUSTED = ["lean/Tahoe/Mutable/Content.lean is a hand transcription of the functions listed in its header; a version is "
@@ -210,6 +212,47 @@ def gen_history(rng, maxops):
             "policy": rng.choice(["random", "random", "random", "fifo", "lifo"]), "ops": ops}
 
 
+SMALL_CONFIGS = [(2, 3, 4), (1, 2, 4), (2, 3, 2), (1, 2, 3), (3, 4, 3)]     # tiny segments: many-segment files stay small
+
+
+def gen_manyseg_history(rng, maxops):
+    """MDMF files of 9 / 12 / 17 / 33 (±) segments and updates chosen by their (start_segment, end_segment) pair —
+    all residues mod 8, spanning 1..many segments, starting/ending on and off boundaries, ending before/at/after EOF."""
+    k, n, maxseg = rng.choice(SMALL_CONFIGS)
+    seg = next_multiple(maxseg, k)
+    nseg = rng.choice([9, 12, 17, 17, 33]) + rng.choice([0, 0, 1, 2])
+    size = nseg * seg - rng.choice([0, 0, 1, seg - 1])
+    ops = [["create", "m", rbytes(rng, size).hex()]]
+    for _ in range(rng.randrange(1, maxops + 1)):
+        ns = -(-size // seg)
+        s_ = rng.randrange(0, ns)
+        r = rng.random()
+        if r < 0.35:
+            e_ = min(ns - 1, s_ + rng.choice([1, 1, 2, 3]))
+        elif r < 0.6:   # wrap mod 8 between start and end
+            e_ = min(ns - 1, (s_ // 8 + 1) * 8 + rng.choice([0, 0, 1, 7]))
+        elif r < 0.75:
+            e_ = s_
+        else:
+            e_ = rng.randrange(s_, ns + 2)
+        off = min(size, s_ * seg + rng.choice([0, 1, 1, seg - 1, rng.randrange(0, seg)]))
+        end = e_ * seg + rng.choice([0, 1, 1, seg - 1, seg, rng.randrange(0, seg + 1)])
+        if rng.random() < 0.15:
+            end = size + rng.choice([0, 0, 1, seg + 1])
+        ln = max(0, end - off)
+        ops.append(["update", off, rbytes(rng, ln).hex()])
+        if not (off == size and size % seg == 0):
+            size = max(size, off + ln)
+        if rng.random() < 0.75:
+            ops.append(["read", 0, None, rng.choice(["ver", "ver", "fresh", "dbv"])])
+        else:
+            o2 = rng.randrange(0, size)
+            ops.append(["read", o2, rng.randrange(1, size - o2 + 1), "ver"])
+    ops.append(["read", 0, None, "ver"])
+    return {"kind": "hist", "k": k, "n": n, "maxseg": maxseg, "sched": rng.randrange(1 << 30),
+            "policy": rng.choice(["random", "random", "fifo", "lifo"]), "ops": ops}
+
+
 def gen_reuse_history(rng, maxops, overtaken=False):
     """Several operations through ONE MutableFileVersion object (update/overwrite/modify/read in any order, offsets
     inside / at / after EOF), read back through a fresh node after each; occasionally a new object is obtained, or a
@@ -286,6 +329,7 @@ def _h(k, n, maxseg, ops, sched=1, policy="random", nomodel=False):
 
 
 A = bytes(range(65, 91))
+B = bytes((37 * i + 11) % 251 for i in range(200))     # every 4-byte window distinct
 CORPUS = [
     # --- one minimal history per known mechanism (seeded changes C09-a/b/c, the two repaired defects); 26-byte MDMF
     #     file, 8-byte segments: segments [0,8) [8,16) [16,24) and the 2-byte tail [24,26)
@@ -298,6 +342,25 @@ CORPUS = [
     # C09-d: a write at offset 0 that ends inside the last segment, short of EOF (must not become a plain publish)
     _h(2, 4, 8, [["create", "m", A.hex()], ["update", 0, (b"d" * 25).hex()], ["read", 0, None, "ver"]]),
     _h(2, 4, 8, [["create", "m", A[:7].hex()], ["update", 0, b"ddd".hex()], ["read", 0, None, "fresh"]], policy="lifo"),
+    # C09-e: which fetched boundary segment is `start` and which is `end` (ServermapUpdater._got_results /
+    # _got_update_results_one_share): many-segment MDMF files (4-byte segments, 22 and 35 segments), writes that start and
+    # end off a segment boundary before EOF, (start_segment, end_segment) pairs over all residues mod 8
+] + [
+    _h(2, 3, 4, [["create", "m", B[:4 * 21 + 2].hex()], ["update", 4 * s_ + 1, (b"e" * (4 * e_ + 2 - (4 * s_ + 1))).hex()],
+                 ["read", 0, None, how_]], policy=pol_)
+    for (s_, e_, how_, pol_) in [(7, 8, "ver", "random"), (5, 8, "fresh", "fifo"), (1, 8, "ver", "lifo"), (6, 9, "dbv", "random"),
+                                 (15, 16, "fresh", "random"), (8, 15, "ver", "fifo"), (16, 17, "ver", "random"),
+                                 (0, 20, "fresh", "lifo"), (3, 4, "ver", "random")]
+] + [
+    # 35 segments; several writes in one history: on/off boundaries, ending before / at / after EOF, 2..many segments
+    _h(1, 2, 4, [["create", "m", B[:4 * 34 + 3].hex()], ["update", 4 * 23 + 3, (b"f" * 7).hex()], ["read", 0, None, "ver"],
+                 ["update", 4 * 31, (b"g" * 6).hex()], ["read", 4 * 30, 14, "ver"], ["update", 4 * 7 + 2, (b"h" * (4 * 25)).hex()],
+                 ["read", 0, None, "fresh"], ["update", 4 * 15 + 1, (b"i" * (4 * 19 + 2)).hex()], ["read", 0, None, "ver"],
+                 ["update", 4 * 31 + 1, (b"j" * 30).hex()], ["read", 0, None, "fresh"]]),
+    _h(2, 3, 2, [["create", "m", B[:2 * 33].hex()], ["update", 2 * 15 + 1, b"kk".hex()], ["read", 0, None, "ver"],
+                 ["update", 2 * 23 + 1, (b"l" * 18).hex()], ["read", 0, None, "ver"], ["update", 2 * 8, (b"m" * 15).hex()],
+                 ["read", 0, None, "fresh"], ["update", 2 * 31 + 1, b"nn".hex()], ["read", 0, None, "ver"]], policy="fifo"),
+] + [
     # C09-c: ranged reads that end in a non-final segment beyond the tail length / exactly on a segment boundary
     _h(2, 4, 8, [["create", "m", A.hex()], ["read", 0, 5, "ver"], ["read", 1, 7, "ver"], ["read", 10, 12, "ver"],
                  ["read", 6, 1, "ver"], ["read", 0, None, "ver"]]),
@@ -889,9 +952,11 @@ def run(ctx):
         rngs = [dict(c) for c in RNG_CORPUS]
         decs = [dict(c) for c in DEC_CORPUS]
         thorough = ctx.tier == "thorough"
-        for i in range(budget(190, 2000)):
+        for i in range(budget(170, 1900)):
             mx = 8 if not thorough else rng.choice([8, 8, 20, 40])
             hists.append(gen_history(rng, mx))
+        for i in range(budget(25, 400)):
+            hists.append(gen_manyseg_history(rng, 3 if not thorough else rng.choice([3, 6, 12])))
         for i in range(budget(60, 700)):
             hists.append(gen_reuse_history(rng, 8 if not thorough else rng.choice([8, 8, 20]), overtaken=(i % 4 == 3)))
         for i in range(budget(1500, 30000)):
